@@ -219,3 +219,36 @@ func PoolPut(name string) {
 	}
 	perturb("pool_put")
 }
+
+var choiceModes sync.Map // name -> "prefer" | "avoid" | "flip"
+
+// SetChoice overrides a size-dependent decision of the library ("" restores
+// the natural decision): "prefer" takes the alternative whenever it is
+// allowed, "avoid" never takes it, "flip" takes the opposite of the natural
+// decision when that is allowed.
+func SetChoice(name, mode string) {
+	if mode == "" {
+		choiceModes.Delete(name)
+		return
+	}
+	choiceModes.Store(name, mode)
+}
+
+// Choice is consulted where the library picks between two candidates that are
+// both valid results (it normally takes the smaller one): natural is the
+// library's own decision, allowed says whether the alternative exists.
+func Choice(name string, natural, allowed bool) bool {
+	m, ok := choiceModes.Load(name)
+	if !ok {
+		return natural
+	}
+	switch m.(string) {
+	case "prefer":
+		return allowed
+	case "avoid":
+		return false
+	case "flip":
+		return !natural && allowed
+	}
+	return natural
+}
